@@ -17,7 +17,7 @@ import (
 const CtlType = 200
 
 type CEvent struct {
-	Ev     string `json:"ev"` // req | resp | originate | cancel | connect | disconnect | setfail
+	Ev     string `json:"ev"` // req | resp | originate | originate_blocked | send_fails | cancel | connect | disconnect | setfail
 	From   int    `json:"from,omitempty"`
 	ID     uint64 `json:"id,omitempty"`
 	Target int    `json:"target,omitempty"`
@@ -64,6 +64,8 @@ type call struct {
 type ControlRunner struct {
 	n     *Node
 	calls map[uint64]*call
+	gates map[int]chan struct{}
+	gated map[int]uint64
 }
 
 func NewControlRunner(me int) (*ControlRunner, error) {
@@ -71,10 +73,13 @@ func NewControlRunner(me int) (*ControlRunner, error) {
 	if err != nil {
 		return nil, err
 	}
-	return &ControlRunner{n: n, calls: map[uint64]*call{}}, nil
+	return &ControlRunner{n: n, calls: map[uint64]*call{}, gates: map[int]chan struct{}{}, gated: map[int]uint64{}}, nil
 }
 
 func (c *ControlRunner) Close() {
+	for _, g := range c.gates {
+		close(g)
+	}
 	for _, k := range c.calls {
 		k.cancel()
 	}
@@ -169,6 +174,66 @@ func (c *ControlRunner) Step(ev CEvent) CObs {
 		}
 	case "originate":
 		c.originate(ev, &o)
+	case "originate_blocked":
+		// the agent's own request whose send parks inside the connection write
+		// (the id is allocated and registered, the lock released) ...
+		_, _, _, before := c.n.A.VerifControlState()
+		s := c.n.sinks[ev.Target]
+		if s == nil {
+			break
+		}
+		gate := make(chan struct{})
+		s.mu.Lock()
+		s.Gate = gate
+		s.mu.Unlock()
+		ctx, cancel := context.WithCancel(context.Background())
+		k := &call{cancel: cancel, done: make(chan *protocol.ControlResponse, 1)}
+		go func() {
+			r, err := c.n.A.SendControlRequestWithData(ctx, PID(ev.Target), CtlType, be8(ev.Tag))
+			if err != nil {
+				r = nil
+			}
+			k.done <- r
+		}()
+		ok := waitUntil(5*time.Second, func() bool {
+			pending, _, _, _ := c.n.A.VerifControlState()
+			for _, id := range pending {
+				if id == before+1 {
+					return true
+				}
+			}
+			return false
+		})
+		if !ok {
+			o.Note += "blocked originate did not register; "
+		}
+		time.Sleep(200 * time.Microsecond) // let the call reach the parked write
+		k.id = before + 1
+		c.calls[k.id] = k
+		c.gates[ev.Target] = gate
+		c.gated[ev.Target] = k.id
+		o.NewID = k.id
+	case "send_fails":
+		// ... and now fails
+		if g := c.gates[ev.Peer]; g != nil {
+			id := c.gated[ev.Peer]
+			if s := c.n.sinks[ev.Peer]; s != nil {
+				s.mu.Lock()
+				s.Gate = nil
+				s.mu.Unlock()
+			}
+			close(g)
+			delete(c.gates, ev.Peer)
+			if k := c.calls[id]; k != nil {
+				select {
+				case <-k.done:
+				case <-time.After(5 * time.Second):
+					o.Note += "failed send did not return; "
+				}
+				delete(c.calls, id)
+			}
+			o.NewID = id
+		}
 	case "cancel":
 		if k := c.calls[ev.ID]; k != nil {
 			k.cancel()
@@ -265,6 +330,10 @@ func CoqCEvent(e CEvent) string {
 		return fmt.Sprintf("CResp %s %s %s", vh.CoqN(uint64(e.From)), vh.CoqN(e.ID), vh.CoqN(e.Tag))
 	case "originate":
 		return fmt.Sprintf("COriginate %s %s", vh.CoqN(uint64(e.Target)), vh.CoqN(e.Tag))
+	case "originate_blocked":
+		return fmt.Sprintf("COriginateBlocked %s %s", vh.CoqN(uint64(e.Target)), vh.CoqN(e.Tag))
+	case "send_fails":
+		return "CSendFails " + vh.CoqN(e.ID)
 	case "cancel":
 		return "CCancel " + vh.CoqN(e.ID)
 	case "connect":
